@@ -15,7 +15,7 @@ import (
 func init() {
 	register("C19", PropCheck{
 		Title:      "Independent sessions can be served concurrently without interference",
-		Explain:    "If no code on the request path writes memory reachable from two sessions, every interleaving is equivalent to a sequential one; that removes the schedule quantifier. Decided: (R1) no library function reachable (class-hierarchy call graph over the library) from Exec/Flush/Finish/Reset, Persister.Save/Load or any db.Db method of the library back ends stores to a package-level variable of the library, or updates a map / slice element / struct field reached through one; all package-level variables of the library are enumerated and the known registration-time writers (RegisterInputValidator, FlagDebugger.Register) are confirmed to be detected but unreachable from the request path; (R2) byte slices obtained from Resource.GetCode and db.Db.Get - the immutable application data sessions share - are never the destination of an in-place write (first argument of append, destination of copy, indexed store), tracked through phis, re-slicing, parameters, results and struct fields (field-based) across the library; (R4) the file system is shared state too: the fs back end writes only under names unique to the write (os.CreateTemp), so sessions served concurrently, each through its own store object on the same directory, never share a scratch file (shared with C11 R8; added after seeded change C19-F); (R5) slices that external code returns in a resource.Result (FlagSet, FlagReset) are never the first argument of append - append writes into spare capacity of memory the application owns and may share (added after seeded change C19-G); (R6) on the request path the library calls no package-level function of a third-party package that (within that package, two calls deep) stores to that package's own package-level variables - process-wide configuration inside a dependency such as gotext.Configure (added after C19-H). (R7) = C10 R5: the session prefix is decided by the documented threshold on the data type (added after seeded change C19-J).",
+		Explain:    "If no code on the request path writes memory reachable from two sessions, every interleaving is equivalent to a sequential one; that removes the schedule quantifier. Decided: (R1) no library function reachable (class-hierarchy call graph over the library) from Exec/Flush/Finish/Reset, Persister.Save/Load or any db.Db method of the library back ends stores to a package-level variable of the library, or updates a map / slice element / struct field reached through one; all package-level variables of the library are enumerated and the known registration-time writers (RegisterInputValidator, FlagDebugger.Register) are confirmed to be detected but unreachable from the request path; (R2) byte slices obtained from Resource.GetCode and db.Db.Get - the immutable application data sessions share - are never the destination of an in-place write (first argument of append, destination of copy, indexed store), tracked through phis, re-slicing, parameters, results and struct fields (field-based) across the library; (R4) the file system is shared state too: the fs back end writes only under names unique to the write (os.CreateTemp), so sessions served concurrently, each through its own store object on the same directory, never share a scratch file (shared with C11 R8; added after seeded change C19-F); (R5) slices that external code returns in a resource.Result (FlagSet, FlagReset) are never the first argument of append - append writes into spare capacity of memory the application owns and may share (added after seeded change C19-G); (R6) on the request path the library calls no package-level function of a third-party package that (within that package, two calls deep) stores to that package's own package-level variables - process-wide configuration inside a dependency such as gotext.Configure (added after C19-H). (R7) = C10 R5: the session prefix is decided by the documented threshold on the data type (added after seeded change C19-J). (R8) no lock on package-level state is acquired again while it is held: for every Lock/RLock of a package-level sync.Mutex/RWMutex, no call made before its non-deferred release (or the return, when the release is deferred) reaches another acquisition of the same lock through static and interface calls in the library (the library holds no locks today; added after seeded change C19-M, a re-entrant RLock that wedges all sessions once a writer queues).",
 		NotDecided: "races inside Resource/Db implementations supplied by the application; the race detector's view (a run-time tool); registration APIs are process-wide by design and must be called before serving.",
 		Assume:     []string{"append returns memory that may alias its first argument only", "cbor.Unmarshal, ioutil.ReadAll, hex/base64 decoding and pgx Scan return freshly allocated byte slices"},
 		Run:        runC19,
